@@ -68,8 +68,12 @@ CpuListRepaired(box, levelmax, lmax, bk) ==
 
 \* what any sound pre-selection must contain for leaves not coarser than the search cubes: every cpu with a non-empty
 \* key interval that meets the key block of a search cube
+\* (the info file prints the keys with 15 digits: the LAST one may come out below the end of the key space, the last
+\* cpu nevertheless holds every key up to the end)
 MustHave(box, levelmax, lmax, bk) ==
-  LET cb == Cubes(box, levelmax, lmax)   dkey == 8 ^ (levelmax + 1 - cb.bl)   md == 2 ^ cb.bl IN
-  {i \in 1..(Len(bk) - 1) : bk[i] < bk[i + 1] /\ \E q \in cb.cubes :
-       LET omin == Key(q[1], q[2], q[3], cb.bl) * dkey IN bk[i] < omin + dkey /\ bk[i + 1] > omin}
+  LET cb == Cubes(box, levelmax, lmax)   dkey == 8 ^ (levelmax + 1 - cb.bl)   md == 2 ^ cb.bl
+      ncpu == Len(bk) - 1   tot == 8 ^ (levelmax + 1)
+      hi(i) == IF i = ncpu /\ bk[i + 1] < tot THEN tot ELSE bk[i + 1] IN
+  {i \in 1..ncpu : bk[i] < hi(i) /\ \E q \in cb.cubes :
+       LET omin == Key(q[1], q[2], q[3], cb.bl) * dkey IN bk[i] < omin + dkey /\ hi(i) > omin}
 ====
